@@ -320,6 +320,29 @@ def evaluate(d):
                 orc = "feasible constrained fitnesses do not compare lexicographically"
         if orc is None and (not (cl == fa) or base._violates_constraint(cl) != va or cl.valid != fa.valid):
             orc = "clone of a constrained fitness does not compare equal to its original (violation flags lost)"
+        if orc is None and d.get("obj") is not None:
+            # F38: "every objective slice passed to dominates" x "every feasible/violating/unevaluated combination of
+            # constrained fitnesses": dominance restricted to a slice of the objectives, judged by the statement
+            # (oracle only: the model line carries the unsliced comparison)
+            sl = slice(*d["obj"])
+            try:
+                ds = fa.dominates(fb, sl)
+                dr = fb.dominates(fa, sl)
+            except Exception as e:
+                ds = dr = None
+                orc = "ConstrainedFitness.dominates(other, %r) raised %s: %s" % (sl, type(e).__name__, e)
+            if orc is None:
+                if va and fb.valid and not vb and ds:
+                    orc = "violating fitness dominates a feasible evaluated one on objectives %r" % (sl,)
+                elif vb and fa.valid and not va and dr:
+                    orc = "violating fitness (right operand) dominates a feasible evaluated one on objectives %r" % (sl,)
+                elif not va and not vb and fa.valid and fb.valid:
+                    sa, sb = exact(fa.wvalues)[sl], exact(fb.wvalues)[sl]
+                    wds = all(x >= y for x, y in zip(sa, sb)) and any(x > y for x, y in zip(sa, sb))
+                    wdr = all(y >= x for x, y in zip(sa, sb)) and any(y > x for x, y in zip(sa, sb))
+                    if bool(ds) != wds or bool(dr) != wdr:
+                        orc = ("feasible constrained fitnesses: dominates(other, %r) is %s/%s, the weighted values on those "
+                               "objectives give %s/%s" % (sl, ds, dr, wds, wdr))
         kinds = ("viol" if va else "eval" if fa.valid else "uneval") + "-" + ("viol" if vb else "eval" if fb.valid else "uneval")
         cvs = lambda cv: "none" if cv is None else (",".join(str(int(c)) for c in cv) or "-")
         return Case(d, ["C01 ccmp %s %s %s %s %s" % (slist(w), slist([fr(x) for x in d["a"]]), cvs(d["cva"]),
@@ -1155,6 +1178,13 @@ def generate(tier, rng, mult):
                 for cva in cvs:
                     for cvb in cvs:
                         yield {"k": "ccmp", "w": w, "a": a, "cva": cva, "b": b, "cvb": cvb}
+        # F38: dominance of constrained fitnesses restricted to an objective slice
+        for a in tuples[1:]:
+            for b in tuples[1:]:
+                for cva, cvb in ((None, None), ([False] * n, None), ([True], None), (None, [True, False])):
+                    for obj in ([None, None, None], [0, 1, None], [1, None, None], [None, None, -1], [-1, None, None]):
+                        yield {"k": "ccmp", "w": w, "a": a if cva != [True] else [], "cva": cva,
+                               "b": b if cvb != [True, False] else [], "cvb": cvb, "obj": obj}
     # constrained histories (assignment / violation record / deletion in every order)
     cvops = [{"cv": None}, {"cv": [True]}, {"cv": [False]}, {"cv": [1, -1]}]
     for w in (["1"], ["-1", "2"]):
@@ -1265,8 +1295,12 @@ def generate(tier, rng, mult):
             yield {"k": "hist", "w": w, "ops": ops}
         else:
             cv = lambda: rng.choice([None, [], [False], [True], [rng.random() < 0.5 for _ in range(3)], [rng.randint(-2, 2) for _ in range(3)]])
-            yield {"k": "ccmp", "w": w, "a": a if rng.random() < 0.6 else [], "cva": cv(),
-                   "b": b if rng.random() < 0.6 else [], "cvb": cv()}
+            c = {"k": "ccmp", "w": w, "a": a if rng.random() < 0.6 else [], "cva": cv(),
+                 "b": b if rng.random() < 0.6 else [], "cvb": cv()}
+            if rng.random() < 0.5:
+                c["obj"] = rng.choice([[None, None, None], [0, 1, None], [1, None, None], [None, -1, None],
+                                       [None, None, -1], [None, None, 2], [-2, None, None], [5, None, None]])
+            yield c
 
 
 def shrink(d):
